@@ -1166,6 +1166,97 @@ func backlog(lru bool, capN, workers, k, m int, hits map[string]string) {
 	}
 }
 
+// queued: key k is cached, its worker is held inside a callback, and m operations of every queued kind (delete, add,
+// update, update-or-add, both upserts) on k are submitted behind it from one goroutine, in a known order, with contexts
+// that are already done (the caller leaves at once, the operation stays queued). None of them may be decided on the
+// caller's side from what the cache holds before the queued ones ran; after the release the store and the cache must be
+// what the same sequence leaves when applied one operation at a time on a fresh group. Monitors only.
+var queuedKinds = []string{"del", "add", "upd", "del", "uoa", "utl", "del", "utr", "add", "uoa", "del", "upd"}
+
+func (gr *group) submit(ctx context.Context, op string, k, v int) (interface{}, error) {
+	st, key := gr.st, mkKey(k)
+	switch op {
+	case "add":
+		return gr.g.DoAdd(ctx, st.add, key, pair{k, v})
+	case "upd":
+		return gr.g.DoUpdate(ctx, st.load, st.upd, key, pair{k, v})
+	case "del":
+		return gr.g.DoDelete(ctx, st.del, key)
+	case "uoa":
+		return gr.g.DoUpdOrAddIfNull(ctx, st.load, st.upd, st.add, isNotFound, key, pair{k, v})
+	case "utl":
+		return gr.g.DoUpsertThenLoad(ctx, st.upsert, st.load, key, pair{k, v})
+	}
+	return gr.g.DoUpsertThenRenewInCache(ctx, st.upsert, key, pair{k, v})
+}
+
+func queued(lru bool, capN, workers, k, m int, hits map[string]string) {
+	settle := func() {
+		if err := c14q.Quiesce(10 * time.Second); err != nil {
+			fmt.Fprintln(os.Stderr, "harness error:", err)
+			os.Exit(2)
+		}
+	}
+	final := func(gr *group) string {
+		where, vals := gr.peek(k)
+		gr.st.mu.Lock()
+		defer gr.st.mu.Unlock()
+		cur, present := gr.st.m[k]
+		return fmt.Sprintf("store=%d present=%v cached-by=%d values=%v", cur, present, len(where), vals)
+	}
+	// the reference: the same sequence, one operation at a time
+	ref := newGroupDeep(lru, capN, workers, 0)
+	_, _ = ref.submit(context.Background(), "add", k, 7)
+	_, _ = ref.submit(context.Background(), "utr", k, 100)
+	for i := 1; i <= m; i++ {
+		_, _ = ref.submit(context.Background(), queuedKinds[i%len(queuedKinds)], k, i)
+	}
+	want := final(ref)
+	ref.close()
+
+	gr := newGroupDeep(lru, capN, workers, 0)
+	st := gr.st
+	_, _ = gr.submit(context.Background(), "add", k, 7)
+	block := make(chan struct{})
+	st.mu.Lock()
+	st.block = block
+	st.mu.Unlock()
+	go func() {
+		defer func() { _ = recover() }()
+		_, _ = gr.submit(context.Background(), "utr", k, 100)
+	}()
+	settle()
+	gone, cancel := context.WithCancel(context.Background())
+	cancel()
+	func() {
+		defer func() { _ = recover() }()
+		for i := 1; i <= m; i++ {
+			op := queuedKinds[i%len(queuedKinds)]
+			r, err := gr.submit(gone, op, k, i)
+			if err != context.Canceled {
+				st.mu.Lock()
+				st.hit("C15:asyncCall:decided-before-queued-operations", fmt.Sprintf("%s on key %d, submitted while %d earlier operations on the key were still queued behind a held callback, returned %s at once instead of being queued", op, k, i, canonRes(op, r, err)))
+				st.mu.Unlock()
+			}
+		}
+	}()
+	close(block)
+	settle()
+	if got := final(gr); got != want {
+		st.mu.Lock()
+		st.hit("C15:asyncCall:queued-sequence-differs-from-sequential", fmt.Sprintf("%d operations on key %d queued behind a held callback left %s; applied one at a time they leave %s", m, k, got, want))
+		st.mu.Unlock()
+	}
+	gr.keys[k] = true
+	gr.checkCoherent("queued")
+	gr.close()
+	for key, v := range st.hits {
+		if _, ok := hits[key]; !ok {
+			hits[key] = v
+		}
+	}
+}
+
 // routingStress: parallel callers, each owns one key of a hashing key type (String, IntCRC, Int64CRC): after its own
 // completed upsert a caller's DoGet must serve exactly what the upsert left; no key may be cached by two workers.
 func routingStress(gr *group, n int) {
@@ -1368,6 +1459,13 @@ func runScript(lines []string) ([]string, map[string]string) {
 			m, ok2 := parseNat(w[2], 5000)
 			if ok1 && ok2 && m >= 1 && w[3] == "-" {
 				backlog(lru, capN, workers, k, m, hits)
+				out = "done"
+			}
+		case len(w) == 4 && w[0] == "queued" && gr != nil:
+			k, ok1 := parseKey(w[1])
+			m, ok2 := parseNat(w[2], 5000)
+			if ok1 && ok2 && m >= 1 && w[3] == "-" {
+				queued(lru, capN, workers, k, m, hits)
 				out = "done"
 			}
 		case len(w) == 1 && w[0] == "start" && gr != nil:
@@ -1659,7 +1757,7 @@ func genKeyType(r *rng.R, tier string) []string {
 }
 
 func genGarbage(r *rng.R) []string {
-	toks := []string{"backlog", "gap", "lrus", "start", "where", "probe", "bytes", "new", "get", "add", "upd", "del", "uoa", "utl", "utr", "peek", "store", "stress", "pile", "c", "0c", "cx", "map", "lru", "0", "1", "-1", "-", "01", "2", "x",
+	toks := []string{"backlog", "queued", "gap", "lrus", "start", "where", "probe", "bytes", "new", "get", "add", "upd", "del", "uoa", "utl", "utr", "peek", "store", "stress", "pile", "c", "0c", "cx", "map", "lru", "0", "1", "-1", "-", "01", "2", "x",
 		"99999999999999999999", "1000", "+1", "", "012", "-9223372036854775809"}
 	lines := []string{r.Pick("new map 0 1", "new lru 2 2", "new lrus 2 1", "new bogus 1 1", "new lru 65 1", "new map 0 0", "new lru 1 129")}
 	for i := 0; i < 8; i++ {
@@ -1749,6 +1847,8 @@ func fixedCases() []corr.Case {
 	}
 	add("backlog", "new map 0 1", "backlog 1 70 -", "backlog 1 300 -")
 	add("backlog", "new lru 4 2", "keytype string", "backlog 5 130 -")
+	add("queued", "new map 0 1", "queued 1 3 -", "queued -2 40 -")
+	add("queued", "new lru 3 2", "keytype string", "queued 5 25 -")
 	add("pile", "new map 0 1", "pile 1 5 -", "add 1 1 -")
 	add("pile", "new lru 2 3", "pile -2 4 -")
 	add("stress", "new map 0 2", "stress 1 8 -", "add 1 1 -", "peek 1")
@@ -1783,6 +1883,8 @@ func spec() corr.Spec {
 				return corr.Case{Tag: "keytype", Lines: genKeyType(r, tier)}
 			case i%307 == 131 || (tier != "quick" && i%101 == 31):
 				return corr.Case{Tag: "backlog", Lines: []string{fmt.Sprintf("new %s %d 2", r.Pick("map", "lru"), r.PickInt(2, 8)), fmt.Sprintf("backlog %d %d -", r.Range(-3, 7), r.PickInt(70, 130, 300, 1000, 3000))}}
+			case i%211 == 97 || (tier != "quick" && i%103 == 29):
+				return corr.Case{Tag: "queued", Lines: []string{fmt.Sprintf("new %s %d %d", r.Pick("map", "lru", "lrus"), r.PickInt(0, 2, 8), r.Range(1, 3)), fmt.Sprintf("queued %d %d -", r.Range(-3, 7), r.PickInt(1, 2, 5, 12, 40, 150))}}
 			case i%151 == 71:
 				ls := genScript(r, tier)
 				at := r.Range(1, len(ls)-1)
